@@ -112,8 +112,12 @@ def _qr(ctx, p, rng, full=False):
     if use_out:
         mech += ':reused-out'
     try:
-        Qm, R = (UTPM.qr_full if full else UTPM.qr)(UTPM(gen.relayout(a, gen.LAYOUTS[int(rng.integers(5))])), **kw) if use_out else \
-            (algopy.qr_full if full else algopy.qr)(UTPM(gen.relayout(a, gen.LAYOUTS[int(rng.integers(5))])))
+        if use_out and M == N and rng.random() < 0.4:       # the overwrite-the-input form: one factor replaces A
+            Ain = UTPM(a.copy())
+            Qm, R = (UTPM.qr_full if full else UTPM.qr)(Ain, out=(Ain, kw['out'][1]) if rng.random() < .5 else (kw['out'][0], Ain))
+        else:
+            Qm, R = (UTPM.qr_full if full else UTPM.qr)(UTPM(gen.relayout(a, gen.LAYOUTS[int(rng.integers(5))])), **kw) if use_out else \
+                (algopy.qr_full if full else algopy.qr)(UTPM(gen.relayout(a, gen.LAYOUTS[int(rng.integers(5))])))
     except Exception as e:
         ctx.violation(mech + ':raises:' + type(e).__name__, {'M': M, 'N': N, 'D': D, 'P': P, 'error': repr(e)[:200]}); return
     if Qm.data.shape != (D, P, M, K) or R.data.shape != (D, P, K, N):
@@ -144,8 +148,12 @@ def _cholesky(ctx, p, rng):
     cond = max(lin.cond2(a[0, pp]) for pp in range(P))
     use_out = rng.random() < 0.3
     try:
-        L = UTPM.cholesky(UTPM(gen.relayout(a, gen.LAYOUTS[int(rng.integers(5))])), out=UTPM(rng.normal(size=a.shape))) if use_out else \
-            algopy.cholesky(UTPM(gen.relayout(a, gen.LAYOUTS[int(rng.integers(5))])))
+        if use_out and rng.random() < 0.4:          # the overwrite-the-input form: the factor replaces A
+            Ain = UTPM(a.copy())
+            L = UTPM.cholesky(Ain, out=Ain)
+        else:
+            L = UTPM.cholesky(UTPM(gen.relayout(a, gen.LAYOUTS[int(rng.integers(5))])), out=UTPM(rng.normal(size=a.shape))) if use_out else \
+                algopy.cholesky(UTPM(gen.relayout(a, gen.LAYOUTS[int(rng.integers(5))])))
     except Exception as e:
         ctx.violation('cholesky:raises:' + type(e).__name__, {'n': n, 'D': D, 'P': P, 'error': repr(e)[:200]}); return
     if L.data.shape != a.shape:
@@ -258,8 +266,12 @@ def _eigh(ctx, p, rng):
     if use_out:
         mech += ':reused-out'
     try:
-        l, Qm = UTPM.eigh(UTPM(gen.relayout(a, gen.LAYOUTS[int(rng.integers(5))])), out=(UTPM(rng.normal(size=(D, P, n))), UTPM(rng.normal(size=(D, P, n, n))))) if use_out else \
-            algopy.eigh(UTPM(gen.relayout(a, gen.LAYOUTS[int(rng.integers(5))])))
+        if use_out and rng.random() < 0.4:          # the overwrite-the-input form: the eigenvectors replace A
+            Ain = UTPM(a.copy())
+            l, Qm = UTPM.eigh(Ain, out=(UTPM(rng.normal(size=(D, P, n))), Ain))
+        else:
+            l, Qm = UTPM.eigh(UTPM(gen.relayout(a, gen.LAYOUTS[int(rng.integers(5))])), out=(UTPM(rng.normal(size=(D, P, n))), UTPM(rng.normal(size=(D, P, n, n))))) if use_out else \
+                algopy.eigh(UTPM(gen.relayout(a, gen.LAYOUTS[int(rng.integers(5))])))
     except Exception as e:
         ctx.violation(mech + ':raises:' + type(e).__name__, {'n': n, 'D': D, 'P': P, 'split': split, 'error': repr(e)[:300]}); return
     if l.data.shape != (D, P, n) or Qm.data.shape != (D, P, n, n):
